@@ -89,7 +89,8 @@ func propDefs() map[string]*PropDef {
 		Assumptions: []string{
 			"SCOPE: decides the 'returns normally' half of C03 and the empty-tree clause: Range of all six kinds, the closure it returns (rangeScan$1 per leaf class; the single-key closure of the numeric kinds) and their helpers carry an obligation at every index, slice, nil dereference, cast, unsafe.Slice, explicit panic and callee precondition, for every pair of bounds (empty, reversed, equal) and every tree satisfying WF1 - including the empty tree, where Range must not descend (defect F3, fixed: maximum() and the scan require a non-nil root, which the constructor must establish: captures clause); Range is proved to write nothing in the tree",
 			"'none outside', one clause of the functional half, is decided: whenever the scan calls yield, the leaf's stored key is neither below the start bound nor above the end bound in byte order (within_bounds at the yield call; model of bytes.Compare: sign of the result = lexicographic order, total)",
-			"NOT decided: that no key inside the bounds is missed, and the order of delivery. That needs the path-coherence invariant (rung 2) and a sequence-valued ghost result; defect F4 (fixed) was of that kind and is guarded by the seeded canary only through its safety symptoms",
+			"per expansion step: a node that is not pruned has every one of its children pushed exactly once and at the position that makes the pops ascending by byte (every_child_pushed, count, order - the clauses of C02, on rangeScan's loops)",
+			"NOT decided: that pruning never discards a subtree that holds a key inside the bounds (defect F4, fixed, was of that kind) and hence that no key inside the bounds is missed; the global order of delivery. That needs the path-coherence invariant (rung 2) and a sequence-valued ghost result; defect F4 (fixed) was of that kind and is guarded by the seeded canary only through its safety symptoms",
 			"assumed: WF1 preservation, LinkedLive, as in C01; the overflow obligation of the per-entry depth counter is generated but not claimed",
 		},
 		DesignRef: "DESIGN.md section 5 C03, section 12",
